@@ -11,7 +11,7 @@ import (
 
 // ---------------------------------------------------------------- Ring
 
-//verif:entry tier=quick,thorough cover=wrapped,notfull
+//verif:entry native tier=quick,thorough cover=wrapped,notfull
 //verif:doc Ring: n in 1..4, index arbitrary in [0,2n) (invariant), element values symbolic; one Add; Take before/after compared with last_n(Take ++ [v]).
 func Verif_C16_RingStep() {
 	n := rt.Choose("n", 4) + 1
@@ -56,7 +56,7 @@ func c16QueueContents(q *Queue) []any {
 	return out
 }
 
-//verif:entry tier=quick,thorough cover=grew,took,empty
+//verif:entry native tier=quick,thorough cover=grew,took,empty
 //verif:doc Queue: backing length L in 1..4, growth step in 1..2, head/count arbitrary under the invariant tail=(head+count) mod L; one Put or Take; FIFO contents compared with a slice model.
 func Verif_C16_QueueStep() {
 	L := rt.Choose("L", 4) + 1
@@ -111,7 +111,7 @@ func c16Union(m *SafeMap) map[any]any {
 	return u
 }
 
-//verif:entry tier=quick,thorough cover=migratedOld,migratedNew,setNewGen
+//verif:entry native tier=quick,thorough cover=migratedOld,migratedNew,setNewGen
 //verif:doc SafeMap: deletionOld/deletionNew arbitrary in 0..10001 (so both migration thresholds and the Set generation switch are reached directly), dirtyOld and dirtyNew hold 0..2 keys each out of {k0,k1,k2} (disjoint: invariant); one Set/Del/Get with a key from {k0,k1,k2,k3}; union map compared with a Go map model.
 func Verif_C16_SafeMapStep() {
 	m := NewSafeMap()
@@ -174,7 +174,7 @@ func Verif_C16_SafeMapStep() {
 
 // ---------------------------------------------------------------- Set
 
-//verif:entry tier=quick,thorough cover=dup
+//verif:entry native tier=quick,thorough cover=dup
 //verif:doc Set: up to 4 AddInt/Remove operations on symbolic int keys (equality pattern solver-chosen); Contains/Count compared with a list model.
 func Verif_C16_Set() {
 	s := NewSet()
